@@ -150,7 +150,7 @@ def _judge(job):
             failed = [l for l in p.stdout.splitlines() if l.startswith(("FAILED", "ERROR")) and not any(k in l for k in KNOWN_FAIL)]
             if failed or (p.returncode not in (0, 1)):
                 return dict(job=job[:5], verdict="killed-by-tests", info=(failed or [p.stdout[-200:]])[0][:160])
-        env = dict(os.environ, VERIF_REPO=d, VERIF_JOBS=str(jobs))
+        env = dict(os.environ, VERIF_REPO=d, VERIF_JOBS=str(jobs), VERIF_REPLAY_DIR=os.path.join(d, "replays"))
         for c in checks:
             p = subprocess.run([os.path.join(VERIF, "check"), c, "--no-evidence", "--tier", "quick"], cwd=VERIF, env=env, capture_output=True, text=True, timeout=900)
             for l in p.stdout.splitlines():
